@@ -7,6 +7,8 @@ import (
 	"regexp"
 	"strconv"
 	gotime "time"
+
+	"github.com/jotaen/safemath/safemath"
 )
 
 // Time represents a wall clock time. It can be shifted to the adjacent dates.
@@ -174,7 +176,10 @@ func (t *time) IsAfterOrEqual(otherTime Time) bool {
 
 func (t *time) Plus(d Duration) (Time, error) {
 	ONE_DAY := 24 * 60
-	mins := t.MidnightOffset().Plus(d).InMinutes()
+	mins, aErr := safemath.Add(t.MidnightOffset().InMinutes(), d.InMinutes())
+	if aErr != nil {
+		return nil, errors.New("IMPOSSIBLE_OPERATION")
+	}
 	if mins >= 2*ONE_DAY || mins < ONE_DAY*-1 {
 		return nil, errors.New("IMPOSSIBLE_OPERATION")
 	}
